@@ -16,7 +16,7 @@ RULE = ("operation sequences (1-60 ops) over add_event/add_events/get_event/get_
         "retrievals and >=1 timestamp tie; distinct = distinct operation-kind/timestamp sequence")
 PROBES = ["tie_same_ts", "tie_same_ts_and_prec", "insert_between_retrievals", "roundtrip", "roundtrip_then_ops",
           "get_current_below_all", "get_current_partial", "nonmonotone_t", "drained_then_reused", "base_event",
-          "restored_vs_original_compared", "failed_bulk_insert"]
+          "restored_vs_original_compared", "failed_bulk_insert", "user_set_precedence", "batch_of_512_or_more"]
 FAULT_DIMENSION = "restart (JSON round trip of the queue at arbitrary points of the operation sequence); a bulk insert that fails part-way (non-event element) and is survived by the caller"
 REAL_VS_STUB = "real: EventQueue, Event classes, EV, Battery, BaseSimObj JSON; ours: sorted-list reference model"
 ASSUMPTIONS = ["get_event on an empty queue is not generated (unspecified)",
@@ -38,6 +38,9 @@ def _spec(r, nsess, tmax, tmin=0):
             k_ = r.randrange(3)
             d["sess"] = "z%d" % k_
             d["ts"] = 2 + k_ % 3
+    if r.random() < 0.05:
+        # the caller re-ranks an event: precedence is a documented, serialised attribute (the one ties are broken by)
+        d["prec"] = r.choice([5, 15, 0, 10, 20, -1, 0.5, 25, float("inf"), float("-inf")])
     return d
 
 
@@ -55,6 +58,8 @@ def gen(rs, tier):
             ops.append({"op": "add", "e": _spec(r, nsess, tmax, tmin)})
         elif k < 0.37:
             nb = r.randint(0, 5) if r.random() < 0.97 else r.randint(34, 130)      # now and then a backlog of dozens of events
+            if sub(rs, "giant_batch", len(ops)).random() < 0.004:
+                nb = sub(rs, "giant_batch_n", len(ops)).randint(512, 1300)           # weeks of sessions loaded with one call
             ops.append({"op": "add_many", "es": [_spec(r, nsess, tmax, tmin) for _ in range(nb)]})
         elif k < 0.4:
             # fault inside a bulk insert: one element of the batch is not an event (None); the call fails part-way, the caller
@@ -95,21 +100,29 @@ class World:
     def make(self, d):
         t = d["type"]
         if t == "Plugin":
-            return sut.PluginEvent(d["ts"], self.ev(d["sess"]))
-        if t == "Unplug":
-            return sut.UnplugEvent(d["ts"], self.ev(d["sess"]))
-        if t == "Recompute":
-            return sut.RecomputeEvent(d["ts"])
-        return sut.Event(d["ts"])
+            e = sut.PluginEvent(d["ts"], self.ev(d["sess"]))
+        elif t == "Unplug":
+            e = sut.UnplugEvent(d["ts"], self.ev(d["sess"]))
+        elif t == "Recompute":
+            e = sut.RecomputeEvent(d["ts"])
+        else:
+            e = sut.Event(d["ts"])
+        if d.get("prec") is not None:
+            e.precedence = d["prec"]
+        return e
 
 
 def key_of(e):
     typ = {"Plugin": "Plugin", "Unplug": "Unplug", "Recompute": "Recompute"}.get(e.event_type, "Event")
-    return (e.timestamp, typ, getattr(getattr(e, "ev", None), "session_id", None))
+    return (e.timestamp, typ, getattr(getattr(e, "ev", None), "session_id", None), None if e.precedence == PREC[typ] else e.precedence)
 
 
 def mkey(d):
-    return (d["ts"], d["type"], d.get("sess"))
+    return (d["ts"], d["type"], d.get("sess"), None if d.get("prec") is None or d["prec"] == PREC[d["type"]] else d["prec"])
+
+
+def prec_of(k):
+    return PREC[k[1]] if k[3] is None else k[3]
 
 
 def check(sc):
@@ -135,7 +148,7 @@ def check(sc):
             after_rt = False
 
             def order(k):
-                return (k[0], PREC[k[1]])
+                return (k[0], prec_of(k))
 
             for i, op in enumerate(sc["ops"]):
                 o = op["op"]
@@ -319,7 +332,9 @@ def check(sc):
     allk = [mkey(op["e"]) for op in sc["ops"] if op["op"] == "add"] + [mkey(d) for op in sc["ops"] if op["op"] in ("add_many", "add_many_fault") for d in op["es"]] + [mkey(d) for d in (sc["init"] or [])]
     ts = [k[0] for k in allk]
     tie = len(ts) != len(set(ts))
-    tp = [(k[0], PREC[k[1]]) for k in allk]
+    tp = [(k[0], prec_of(k)) for k in allk]
+    out.probe("user_set_precedence", sum(1 for k in allk if k[3] is not None))
+    out.probe("batch_of_512_or_more", sum(1 for op in sc["ops"] if op["op"] == "add_many" and len(op["es"]) >= 512))
     out.probe("tie_same_ts", 1 if tie else 0)
     out.probe("tie_same_ts_and_prec", 1 if len(tp) != len(set(tp)) else 0)
     out.nontrivial = tie and out.probes.get("insert_between_retrievals", 0) > 0
